@@ -55,6 +55,9 @@ def make_target():
 
         @P.expose
         def fail(self):
+            if APPERR[0]:
+                # an exception class of the application's own, for which it has registered converters both ways
+                raise AppError("fail", 7, code=403)
             x = ZeroDivisionError("fail", 7)
             x.code = 403
             x.detail = {"k": [1, 2]}
@@ -115,6 +118,21 @@ def invoke_on(target, c):
 
 
 NONE = 1000000       # what Batch.tla writes for "nothing"
+APPERR = [False]     # the raising member raises the application's own exception class
+
+
+class AppError(Exception):
+    def __init__(self, *args, code=0):
+        super().__init__(*args)
+        self.code = code
+
+
+def apperror_to_dict(x):
+    return {"__class__": "harness.c11.AppError", "a": list(x.args), "code": x.code}
+
+
+def apperror_from_dict(classname, d):
+    return AppError(*d["a"], code=d["code"])
 UNSER = [False]      # the raising member's exception carries something no serializer can write
 
 
@@ -129,7 +147,7 @@ def exc_name(x):
         return "ValueError"
     # the model calls the exception of the raising members "ValueError"; the target raises ZeroDivisionError so that it cannot be
     # confused with an error of the machinery in between
-    return "ValueError" if isinstance(x, ZeroDivisionError) else ("AttributeError" if isinstance(x, AttributeError) else "other:" + type(x).__name__)
+    return "ValueError" if isinstance(x, (ZeroDivisionError, AppError)) else ("AttributeError" if isinstance(x, AttributeError) else "other:" + type(x).__name__)
 
 
 BAD_NAMES = {"unexposed": "unexposed", "private": "_private", "missing": "no_such_method"}
@@ -145,7 +163,7 @@ def fingerprint(x, calls=()):
         return "AttributeError|names the member" if any(repr(n) in str(x) or ("'%s'" % n) in str(x) for n in names) else "AttributeError|" + str(x)[:80]
     attrs = {k: v for k, v in vars(x).items() if k != "_pyroTraceback"}
     return "%s.%s|%s|%s" % (type(x).__module__, type(x).__name__, json.dumps(list(x.args), sort_keys=True, default=repr),
-                            json.dumps(attrs, sort_keys=True, default=repr)) if isinstance(x, ZeroDivisionError) else type(x).__name__
+                            json.dumps(attrs, sort_keys=True, default=repr)) if isinstance(x, (ZeroDivisionError, AppError)) else type(x).__name__
 
 
 def sequential(p, calls):
@@ -194,6 +212,10 @@ def run_cases(cases, servertype):
     config.COMMTIMEOUT = 0.0
     traces = []
 
+    from Pyro5 import serializers as _ser
+    _ser.SerializerBase.register_class_to_dict(AppError, apperror_to_dict)
+    _ser.SerializerBase.register_dict_to_class("harness.c11.AppError", apperror_from_dict)
+
     def main():
         sc = S.CUR
         d = P.Daemon(host="127.0.0.1")
@@ -209,6 +231,7 @@ def run_cases(cases, servertype):
             sc.set_budget(20000)
             ser = case["ser"]
             UNSER[0] = bool(case.get("unser"))
+            APPERR[0] = not UNSER[0] and case_no % 3 == 1
             tr = {"calls": case["calls"], "pre": case["pre"], "oneway": case["oneway"], "hang": False, "ser": ser, "drain": case["drain"]}
             pa = pb = pr = None
             try:
@@ -230,7 +253,12 @@ def run_cases(cases, servertype):
                     # the results of the earlier batch are only looked at after the next batch's calls have been collected
                     for c in case["pre"]:
                         invoke_on(bp, c)
-                    late = bp()
+                    try:
+                        late = bp()
+                    except (S.Hang, S.SchedAbort):
+                        raise
+                    except Exception:
+                        late = iter(())           # (a submission that fails as a whole: nothing to look at later)
                     for c in case["calls"]:
                         invoke_on(bp, c)
                     try:
@@ -293,7 +321,12 @@ def run_cases(cases, servertype):
             traces.append(tr)
         drv.shutdown()
         d.close()
-    memnet.run(main, max_steps=50000000)
+    try:
+        memnet.run(main, max_steps=50000000)
+    finally:
+        APPERR[0] = False
+        _ser.SerializerBase.unregister_class_to_dict(AppError)
+        _ser.SerializerBase.unregister_dict_to_class("harness.c11.AppError")
     if len(traces) < len(cases):
         raise util.MachineryError("session ended early (%d of %d)" % (len(traces), len(cases)))
     return traces
